@@ -26,7 +26,8 @@ NextCodes == \E o \in Os, v \in Vs, c \in Cs, lay \in Lay :
                \/ vec' = Ev(Minimal(o, v, c), lay, "none")
                \/ \E s \in {"minimize", "maximize"} : vec' = Ev(Dense(o, v, c, s), lay, "none")
 NextSides == \E c \in {"L", "Q"}, lay \in Lay : vec' = Ev(Sides(c), lay, "none")
-NextFaults == \E f \in {"bad_type", "bad_sense", "bad_count", "eof"}, lay \in Lay, c \in {"N", "L", "Q"} : vec' = Ev(Dense("Q", "M", c, "minimize"), lay, f)
+NextFaults == \/ \E f \in {"bad_type", "bad_sense", "bad_count", "eof", "bad_b0_first"}, lay \in Lay, c \in {"N", "L", "Q"} : vec' = Ev(Dense("Q", "M", c, "minimize"), lay, f)
+              \/ \E lay \in Lay, o \in {"L", "Q"}, c \in {"L", "Q"} : vec' = Ev(Dense(o, "M", c, "minimize"), lay, "bad_bi_first")
 Models == IF "MODELS" \in DOMAIN IOEnv THEN ndJsonDeserialize(IOEnv.MODELS) ELSE <<>>
 NextRandom == \E k \in DOMAIN Models : vec' = Ev(Models[k].model, Models[k].layout, "none")
 Step(A) == phase = 0 /\ phase' = 1 /\ A
